@@ -22,7 +22,9 @@
 EXTENDS Linalg
 CONSTANTS Kind,        \* "Inverse" | "LU" | "Solve" | "QR"
           Sizes,       \* matrix orders of the tier
-          WideForms    \* 1: lazy / expression forms at every size; 0: at the sizes listed in FormSizes
+          WideForms,   \* 1: lazy / expression forms at every size; 0: at the sizes listed in FormSizes
+          BigLean      \* 1: orders above 33 only as representatives of the largest dispatcher size class of BlockLinalg (block strategies, double,
+                       \*    eager, two matrices): the quick tier then reaches every size class at the cost of one large instantiation per strategy
 VARIABLE c
 Seed == atoi(IOEnv.VERIF_SEED)
 
@@ -127,7 +129,8 @@ KeysOf ==
                            \cup {<<n, f, d, 0>> : n \in Sizes, f \in {"tril", "triu"}, d \in {0}}
       [] Kind = "QR" -> {k \in GeneralKeys : k[2] # "uni" \/ k[1] <= 33} \cup {<<n, "hq", d, 0>> : n \in Sizes, d \in {0, 1}}
                         \cup {<<n, "ill", d, 0>> : n \in Sizes \ {1}, d \in {0, 1, 2}}
-Keys == {k \in KeysOf : k[1] >= MinSize(k[4])}
+Lean(n) == BigLean = 1 /\ n > 33
+Keys == {k \in KeysOf : k[1] >= MinSize(k[4]) /\ (Lean(k[1]) => k[2] = "dd" /\ <<k[3], k[4]>> \in {<<0, 0>>, <<3, 2>>})}
 
 FormSizes == {1, 2, 3, 4, 5, 9, 17}
 FormOK(n) == WideForms = 1 \/ n \in FormSizes
@@ -139,7 +142,8 @@ KCols(n, d) == 1 + (H3(n, 0, 7) % 5)
 Call(s, f, T, k, pk, need) == [strategy |-> s, form |-> f, T |-> T, k |-> k, pk |-> pk, need |-> need]
 InvNoPiv == {"SimpleInv", "BlockLU", "SimpleLU"}
 InvPiv == {"SimpleInvPiv", "BlockLUPiv", "SimpleLUPiv"}
-CallsOf(n, fam, d, v, adm) ==
+LeanCall(x) == x.form = "eager" /\ x.T = "f64" /\ x.strategy \in {"BlockLU", "BlockLUPiv"} /\ x.pk \in {"none", "V"} /\ x.k = 0
+CallsOfAll(n, fam, d, v, adm) ==
     LET nop == v = 0  IN
     CASE Kind = "Inverse" ->
            IF fam = "tril" THEN {Call("lut", f, T, 0, "none", "lower") : f \in {"eager"} \cup (IF FormOK(n) THEN {"expr"} ELSE {}), T \in Types}
@@ -171,6 +175,8 @@ CallsOf(n, fam, d, v, adm) ==
            {Call("MGSR", "eager", T, 0, "none", "any") : T \in Types}
            \cup {Call("MGSRPiv", "eager", T, 0, pk, "any") : pk \in {"V", "M"}, T \in Types}
            \cup (IF FormOK(n) /\ d = 0 THEN {Call("MGSR", "expr", "f64", 0, "none", "any")} \cup {Call("MGSRPiv", "expr", "f64", 0, pk, "any") : pk \in {"V", "M"}} ELSE {})
+
+CallsOf(n, fam, d, v, adm) == IF Lean(n) THEN {x \in CallsOfAll(n, fam, d, v, adm) : LeanCall(x)} ELSE CallsOfAll(n, fam, d, v, adm)
 
 Build(k) ==
     LET n == k[1]  fam == k[2]  d == k[3]  v == k[4] IN
